@@ -20,7 +20,7 @@ import shutil
 
 import numpy as np
 
-from .. import env, tlc, kernels
+from .. import env, tlc, kernels, lossprob
 from ..evidence import Check
 
 MUT = {1: "mB", 2: "mA", 3: "mC", 4: "mZ", 5: "m10", 6: "m9", 7: "mD", 8: "mY"}
@@ -270,13 +270,16 @@ def run(corrupt=None):
         pass
     except Exception as ex:
         ck.violation("C17|cn_validation", "major < minor raised %s instead of MajorCopyNumberError" % type(ex).__name__, {"row": row})
+    # cluster table + option resolution (LossProb.tla): the loaded data must not depend on the row order of either file
+    lossprob.bind(ck, "C17", 96 if thorough else 36, (0, 1, 2, 3, 4, 5) if thorough else (0, 1, 2, 3), ck.seed, want_spec=True, want_order=True)
     shutil.rmtree(workdir, ignore_errors=True)
     j = [r for r in recs if r["judged"] and r["kept"]]
     ck.sample({"cells": j[len(j) // 2]["cells"], "kept": j[len(j) // 2]["kept"]})
     ck.extra["tables_excluded_by_the_property"] = sum(1 for r in recs if not r["judged"])
     ck.rule = ("all 1 296 tables of 2 mutations x 2 samples (cells: no row, one row with major 1/2/0, duplicated row, valid+zero row) and a sample of "
                "3x2 / 2x3 tables, each in 4 row orders, TSV/CSV, optional columns present/absent, every other one also with a cluster file; "
-               "non-trivial = judged tables in which at least one mutation is kept and one dropped")
+               "non-trivial = judged tables in which at least one mutation is kept and one dropped; plus clustered inputs with per-cluster prior columns / "
+               "--assign-loss-prob (instances of LossProb.tla incl. truncal-cluster ties and a Monte-Carlo borderline case) in 4-6 row orders of both files")
     ck.exhaustive = True
     ck.assumptions = ["tables the property excludes (a sample without any usable row; offsetting extra/missing rows) are not judged",
                       "the grid of a row loaded alone is the reference for that row (the emission model itself is C05)"]
